@@ -265,7 +265,7 @@ Qed.
 
 (* ---- I7: fn is entered in dequeue order; started = done ++ the running task ---- *)
 Definition Istarted (s : st) : Prop :=
-  started s = done s ++ match wpc s with WRun => [wtk s] | _ => [] end.
+  started s = done s ++ match wpc s with WRun | WSdStart | WSdLocked | WSdRet0 | WSdRetA => [wtk s] | _ => [] end.
 
 Lemma Istarted_step : forall c s t e s', Istarted s -> step c s t e = Some s' -> Istarted s'.
 Proof.
@@ -577,7 +577,7 @@ Proof.
   - intros x Hx Hd. assert (D := part_disj s i_part0 x). rewrite i_started0 in Hx.
     apply in_app_or in Hx. apply in_app_or in Hd.
     assert (In x (done s) \/ In x (held s)) as [A|A].
-    { destruct Hx as [Hx|Hx]; [left; exact Hx|right]. unfold held. destruct (wpc s); try contradiction. exact Hx. }
+    { destruct Hx as [Hx|Hx]; [left; exact Hx|right]. unfold held. destruct (wpc s); try contradiction; exact Hx. }
     + apply cnt_pos_In in A. destruct Hd as [B|B]; apply cnt_pos_In in B; lia.
     + apply cnt_pos_In in A. destruct Hd as [B|B]; apply cnt_pos_In in B; lia.
 Qed.
@@ -673,7 +673,7 @@ Qed.
 (* the code as found (no re-check): the real event trace of the directed scenario `stw-blocked-submitter-after-shutdown`
    (queue_limit 1, blocking, discard callback): task 2 is accepted, the worker has finished, shutdown has returned,
    every thread is at rest, and task 2 is neither done nor reported *)
-Definition lost_cfg : cfg := mkcfg 1 true true false.
+Definition lost_cfg : cfg := mkcfg 1 true true false false.
 Definition lost_trace : list (tid * ev) :=
   [(10, ECall 0 0 false); (10, ELock); (10, EEnq 0); (10, EBcast 0); (10, EUnlock); (10, ERet 0 true);
    (0, ELock); (0, EDeq 0); (0, EUnlock); (0, ERun 0);
